@@ -451,7 +451,8 @@ pub fn gen_target(rng: &mut Rng) -> Target {
 	if rng.chance(1, 5) {
 		return Target::AltHints(rng.next_u64());
 	}
-	match rng.below(10) {
+	match rng.below(11) {
+		10 => Target::Reject,
 		0..=3 => Target::capture(),
 		4 => Target::Capture {
 			enum_as_u64: true,
